@@ -678,6 +678,103 @@ def write_if_changed(path, text):
     return True
 
 
+# ---------------------------------------------------------------------------
+# writable global symbols (C18).  NOT part of the default outputs: needs built objects, so it is
+# invoked only by tools/props/C18.py (gen_globals(c_objects, rs_archives)).
+# ---------------------------------------------------------------------------
+WRITABLE_CLASSES = set("bBdDCsSgG")
+
+
+def nm_writable(path):
+    """[(symbol, class, section, member)] of the symbols nm places in writable sections of an object / archive.
+    `.data.rel.ro*` (constant after relocation: vtables, panic locations, anonymous constants) is not writable state."""
+    import subprocess
+    p = subprocess.run(["nm", "--format=sysv", path], stdout=subprocess.PIPE, stderr=subprocess.PIPE, text=True)
+    if p.returncode != 0:
+        raise AnchorError("nm failed on %s: %s" % (path, p.stderr[-300:]))
+    out, member = [], os.path.basename(path)
+    for line in p.stdout.split("\n"):
+        m = re.match(r"^Symbols from (.*):$", line.strip())
+        if m:
+            member = os.path.basename(m.group(1))
+            continue
+        f = [x.strip() for x in line.split("|")]
+        if len(f) != 7 or f[2] not in WRITABLE_CLASSES:
+            continue
+        if f[6].startswith(".data.rel.ro"):
+            continue
+        out.append((f[0], f[2], f[6], member))
+    return out
+
+
+def rust_demangle(sym):
+    """legacy (_ZN...E) Rust symbol -> path without the hash; anything else unchanged"""
+    s = re.sub(r"\.llvm\.\d+$", "", sym)
+    if not (s.startswith("_ZN") and s.endswith("E")):
+        return s
+    i, parts = 3, []
+    while i < len(s) - 1:
+        m = re.match(r"\d+", s[i:])
+        if not m:
+            return s
+        n = int(m.group(0))
+        i += len(m.group(0))
+        parts.append(s[i:i + n])
+        i += n
+    if parts and re.fullmatch(r"h[0-9a-f]{16}", parts[-1]):
+        parts.pop()
+    esc = {"$LT$": "<", "$GT$": ">", "$u20$": " ", "$u7b$": "{", "$u7d$": "}", "$RF$": "&", "$BP$": "*", "$C$": ",",
+           "$LP$": "(", "$RP$": ")", "$u27$": "'", "$u5b$": "[", "$u5d$": "]", "..": "::"}
+    out = []
+    for p in parts:
+        for k, v in esc.items():
+            p = p.replace(k, v)
+        out.append(p.lstrip("_") if p.startswith("_<") or p.startswith("_{") else p)
+    return "::".join(out)
+
+
+def gen_globals(c_objects, rs_archives, rs_crate="blake3", hook_prefixes=()):
+    """nm over the C library objects and over the blake3 rlib / native archives of a Rust build.  Writes
+    coq/gen/GenGlobals.v (globals_c, globals_rs : list (list N), ASCII codes, sorted, duplicates removed).
+    Names starting with one of hook_prefixes (statics of the cfg-gated verification hooks, present only because the
+    harness build enables them) go to a separate list globals_rs_hooks.
+    Returns dict(c=[names], rs=[names], rs_hooks=[names], rs_foreign=[names not in the blake3 crate path], changed, sha256)."""
+    c_names = set()
+    for o in c_objects:
+        for name, cls, sec, member in nm_writable(o):
+            c_names.add(name)
+    rs_names, foreign = set(), set()
+    for a in rs_archives:
+        for name, cls, sec, member in nm_writable(a):
+            d = rust_demangle(name)
+            if d.startswith(rs_crate + "::") or a.endswith(".a"):
+                rs_names.add(d)       # native archives built by the crate's build script belong to it entirely
+            else:
+                foreign.add(d)
+
+    def coq_names(ns):
+        if not ns:
+            return "[]"
+        return "[" + ";\n   ".join(coq_list(list(n.encode())) for n in ns) + "]"
+    hooks = sorted(n for n in rs_names if n.startswith(tuple(hook_prefixes))) if hook_prefixes else []
+    rs_names -= set(hooks)
+    c_sorted, rs_sorted = sorted(c_names), sorted(rs_names)
+    text = ("(* GENERATED by tools/gen_coq.py gen_globals (invoked by tools/props/C18.py) from `nm` over the freshly built\n"
+            "   C library objects and the blake3 rlib. Do not edit.  Symbols in writable sections (nm classes b B d D C s S g G,\n"
+            "   minus .data.rel.ro), Rust names demangled without their hash; as lists of ASCII codes. *)\n"
+            "From Coq Require Import NArith List.\nImport ListNotations.\nOpen Scope N_scope.\n\n")
+    text += "(* %s *)\n" % ", ".join(c_sorted)
+    text += "Definition globals_c : list (list N) :=\n  %s.\n\n" % coq_names(c_sorted)
+    text += "(* %s *)\n" % ", ".join(rs_sorted)
+    text += "Definition globals_rs : list (list N) :=\n  %s.\n\n" % coq_names(rs_sorted)
+    text += "(* statics of the verification hooks (cfg blake3_team_blake3_verif): %s *)\n" % ", ".join(hooks)
+    text += "Definition globals_rs_hooks : list (list N) :=\n  %s.\n" % coq_names(hooks)
+    os.makedirs(OUT, exist_ok=True)
+    changed = write_if_changed(os.path.join(OUT, "GenGlobals.v"), text)
+    return {"c": c_sorted, "rs": rs_sorted, "rs_hooks": hooks, "rs_foreign": sorted(foreign), "changed": changed,
+            "sha256": hashlib.sha256(text.encode()).hexdigest()}
+
+
 GENERATORS = [("GenConsts.v", gen_consts), ("GenFormulas.v", gen_formulas), ("GenTestVectors.v", gen_test_vectors)]
 
 
